@@ -87,6 +87,9 @@ func j5Annots() []annot {
 		j5ext("message-flatten", &ext_j5pb.FieldOptions{Type: &ext_j5pb.FieldOptions_Message{Message: &ext_j5pb.MessageFieldOptions{Flatten: true}}}),
 		j5ext("message", &ext_j5pb.FieldOptions{Type: &ext_j5pb.FieldOptions_Message{Message: &ext_j5pb.MessageFieldOptions{}}}),
 		j5ext("any", &ext_j5pb.FieldOptions{Type: &ext_j5pb.FieldOptions_Any{Any: &ext_j5pb.AnyField{OnlyDefined: true, Types: []string{"rt.v1.Sub"}}}}),
+		j5ext("any-open-with-types", &ext_j5pb.FieldOptions{Type: &ext_j5pb.FieldOptions_Any{Any: &ext_j5pb.AnyField{OnlyDefined: false, Types: []string{"rt.v1.Sub", "rt.v1.Nothing"}}}}),
+		j5ext("any-only-defined-no-types", &ext_j5pb.FieldOptions{Type: &ext_j5pb.FieldOptions_Any{Any: &ext_j5pb.AnyField{OnlyDefined: true}}}),
+		j5ext("any-empty", &ext_j5pb.FieldOptions{Type: &ext_j5pb.FieldOptions_Any{Any: &ext_j5pb.AnyField{}}}),
 		j5ext("object-flatten", &ext_j5pb.FieldOptions{Type: &ext_j5pb.FieldOptions_Object{Object: &ext_j5pb.ObjectField{Flatten: true}}}),
 		j5ext("enum", &ext_j5pb.FieldOptions{Type: &ext_j5pb.FieldOptions_Enum{Enum: &ext_j5pb.EnumField{}}}),
 		j5ext("oneof", &ext_j5pb.FieldOptions{Type: &ext_j5pb.FieldOptions_Oneof{Oneof: &ext_j5pb.OneofField{}}}),
